@@ -76,11 +76,11 @@ class Res:
     # -- edits -----------------------------------------------------------------------------------
     def ops(self):
         k = self.kind
-        if k == 'file': return ['edit', 'touch']
+        if k == 'file': return ['edit', 'touch', 'edit-same-size']
         if k == 'globdir':
             old = [m for m in self.members if m not in self.fresh]
             return ['edit-member', 'touch-member', 'add-member'] + (['rm-member'] if len(self.members) > 1 and old else []) + \
-                (['rename-member'] if old else [])
+                (['rename-member'] if old else []) + ['edit-member-same-size']
         if k == 'params': return ['set:' + key for key in self.vals]
         if k == 'linesfile': return [f'line:{i}' for i in (0, 2, 5, 7)] + ['touch']
         if k == 'regexfile': return [f'line:{i}' for i in (0, 1, 4, 5)] + ['touch']
@@ -92,7 +92,12 @@ class Res:
         self.n += 1
         k, ev = self.kind, []
         tag = f'v{self.n}' + 'x' * self.n            # sizes grow: "an edit changes size or mtime"
-        if k == 'file' or k == 'gensrc':
+        if k == 'file' and op == 'edit-same-size':
+            # other content of exactly the same length, modification time in the SAME second (only the nanoseconds differ):
+            # size and whole-second mtime say "unchanged"
+            clock.same_second_rewrite(sb, self.path)
+            ev = [(d, 'edit') for d, _ in self.watchers]
+        elif k == 'file' or k == 'gensrc':
             if op == 'edit':
                 sb.write(self.path, f'{k} {self.rid} {tag}\n'); clock.stamp(sb, self.path)
                 ev = [(d, 'edit') for d, _ in self.watchers]
@@ -103,6 +108,10 @@ class Res:
             ms = sorted(self.members)
             if op == 'edit-member':
                 p = ms[self.n % len(ms)]; self.members[p] = f'{p} {tag}\n'; sb.write(p, self.members[p]); clock.stamp(sb, p)
+                ev = [(d, 'edit') for d, _ in self.watchers]
+            elif op == 'edit-member-same-size':
+                p = ms[self.n % len(ms)]
+                self.members[p] = clock.same_second_rewrite(sb, p)
                 ev = [(d, 'edit') for d, _ in self.watchers]
             elif op == 'touch-member':
                 clock.stamp(sb, ms[self.n % len(ms)])
@@ -149,6 +158,21 @@ class Clock:
 
     def __init__(self):
         self.t = int(time.time()) - 100000
+
+    def same_second_rewrite(self, sb, rel):
+        """replace the content by other bytes of the same length and move the mtime by 0.4 s inside its second"""
+        path = sb.path(rel)
+        st = os.stat(path)
+        b = open(path, 'rb').read()
+        nb = bytes((c + 1) % 256 if (65 <= c < 90 or 97 <= c < 122 or 48 <= c < 57) else c for c in b) if b else b
+        if nb == b and b:
+            nb = bytes([b[0] ^ 1]) + b[1:]
+        with open(path, 'wb') as f:
+            f.write(nb)
+        sec, ns = divmod(st.st_mtime_ns, 10 ** 9)
+        t = sec * 10 ** 9 + (ns + 400_000_000) % 10 ** 9
+        os.utime(path, ns=(t, t))
+        return nb.decode('latin1')
 
     def stamp(self, sb, rel):
         self.t += 3
